@@ -4,7 +4,7 @@
 From Coq Require Import List NArith ZArith Bool Lia.
 From Delb.Base Require Import PyStr.
 From Delb.Tree Require Import ATree ITree ANav ANavFacts ANavOrderFacts.
-From Delb.Conc Require Import CTree CNav.
+From Delb.Conc Require Import CTree CNav CSortFacts.
 Import ListNotations.
 
 Section WalkFacts.
@@ -464,5 +464,42 @@ Section WalkFacts.
     rewrite (filter_all _ _ (fun x => eq_refl)). destruct (bf_unfold t Hnd n Hn) as [d [E [Hsat _]]].
     pose proof (bf_length_bound t Hnd n Hn) as Hb. rewrite E in Hb |- *. cbn [length] in Hb.
     rewrite (bf_levels F d (a_children t n) fuel (children_in t n) Hsat) by lia. reflexivity.
+  Qed.
+  (* ---------------------------------------------------------------- _sort_nodes_in_document_order *)
+  Lemma index_path_spec : forall fuel n acc p, In n (ids t) -> rpath n t = Some p -> length (a_ancestors t n) < fuel ->
+    index_path first_raw next_raw parent is_tag fc fuel ftrue n acc = Ok (p ++ acc).
+  Proof.
+    induction fuel as [|f IH]; intros n acc p Hn Hp Hf; [lia|]. cbn [index_path]. rewrite (Hparent n Hn). cbn [rbind].
+    rewrite (ancestors_chain t Hnd n Hn) in Hf. destruct (a_parent t n) as [q|] eqn:Hq.
+    - rewrite (index_spec_unfiltered n Hn). cbn [rbind].
+      destruct (a_parent_some t n q Hq) as [s [Hs [Eq Hin]]]. destruct (in_split_first n _ Hin) as [l1 [l2 [E _]]].
+      rewrite (place_index t Hnd s l1 l2 n Hs E).
+      destruct (rpath_kid t Hnd s l1 n l2 Hs E) as [ps [H1 H2]]. rewrite Hp in H2. injection H2 as ->. subst q.
+      rewrite (IH (iid s) (length l1 :: acc) ps (sub_id_in t s Hs) H1) by (cbn in Hf; lia).
+      rewrite <- app_assoc. reflexivity.
+    - destruct (N.eq_dec n (iid t)) as [->|Hne].
+      + rewrite rpath_root in Hp. injection Hp as <-. reflexivity.
+      + exfalso. destruct (has_parent t n Hn Hne) as [s [Hs Hk]]. rewrite (a_parent_of_kid t Hnd s n Hs Hk) in Hq. discriminate.
+  Qed.
+  Lemma sort_add_spec : forall nodes L, (forall n, In n nodes -> In n (ids t) /\ is_tag n = true) ->
+    sort_add first_raw next_raw parent is_tag fc ftrue nodes (canon L t) = Ok (canon (rev nodes ++ L) t).
+  Proof.
+    induction nodes as [|n r IH]; intros L H; [reflexivity|]. cbn [sort_add]. destruct (H n (or_introl eq_refl)) as [Hn Htag].
+    rewrite Htag. destruct (rpath_some n t Hn) as [p Hp].
+    rewrite (index_path_spec fc n [] p Hn Hp (ancestors_bound n)). cbn [rbind]. rewrite app_nil_r.
+    rewrite (add_canon L n t Hnd Hn p Hp). rewrite (IH (n :: L)) by (intros m Hm; apply H; right; exact Hm).
+    cbn [rev]. rewrite <- app_assoc. reflexivity.
+  Qed.
+  Theorem sort_spec nodes : (forall n, In n nodes -> In n (ids t) /\ is_tag n = true) ->
+    w_sort first_raw next_raw parent is_tag fc ftrue nodes = Ok (a_doc_sort t nodes).
+  Proof.
+    intros H. unfold w_sort.
+    assert (E0 : Trie None [] = canon [] t).
+    { symmetry. apply canon_miss. unfold hits. destruct (existsb (fun x => memb x []) (ids t)) eqn:E; [|reflexivity].
+      apply existsb_exists in E. destruct E as [x [_ Hx]]. discriminate. }
+    rewrite E0, (sort_add_spec nodes [] H). cbn [rbind]. rewrite emit_canon. unfold a_doc_sort. f_equal. apply filter_ext.
+    intros i. rewrite app_nil_r. destruct (memb i nodes) eqn:E.
+    - apply memb_In. apply -> in_rev. apply memb_In. exact E.
+    - apply memb_false. intros Hin. apply in_rev in Hin. apply memb_false in E. contradiction.
   Qed.
 End WalkFacts.
